@@ -520,7 +520,7 @@ struct Spec<A: AffineRepr> {
     hinv: BigUint,
     small: Vec<(u64, u32)>,
     descs: Vec<Desc>,
-    /// per-curve case counts by oracle class: identity, subgroup, outside, small-order, skipped; [5] = CPU milliseconds
+    /// per-curve case counts by oracle class: identity, subgroup, outside, small-order, skipped; [5] = summed per-case wall milliseconds
     stats: [AtomicU64; 6],
 }
 
@@ -676,7 +676,7 @@ where
     fn stats(&self) -> serde_json::Value {
         let v: Vec<u64> = self.stats.iter().map(|a| a.load(Ordering::Relaxed)).collect();
         serde_json::json!({"cases": self.descs.len(), "identity": v[0], "subgroup_point": v[1], "on_curve_not_in_subgroup": v[2], "small_order_point": v[3],
-            "skipped(absent/undefined)": v[4], "cpu_ms": v[5], "cofactor_small_prime_powers": format!("{:?}", self.small), "cofactor_bits": self.h.bits(), "fast_clearing": self.fast_c.is_some(), "complete_law": self.complete})
+            "skipped(absent/undefined)": v[4], "case_wall_ms_sum": v[5], "cofactor_small_prime_powers": format!("{:?}", self.small), "cofactor_bits": self.h.bits(), "fast_clearing": self.fast_c.is_some(), "complete_law": self.complete})
     }
     fn weight(&self) -> u64 {
         let q = <A::BaseField as Field>::BasePrimeField::MODULUS_BIT_SIZE as u64 * A::BaseField::extension_degree();
